@@ -6,15 +6,6 @@ Local Open Scope nat_scope.
 
 Definition outs (cs : list chunk) : list tok := flat_map fst cs.
 
-(* a query is outside the reach of finding F20 when it does not ask for the empty key of a context derived
-   through an empty SetValues batch *)
-Definition op_safe (a : sstate) (o : op) : Prop :=
-  match o with
-  | OGet r k | OHas r k => query_ok a (sres a r) k
-  | ODump keys => forall i k, i < length (s_pool a) -> In k keys -> query_ok a i k
-  | _ => True
-  end.
-
 (* ------------------------------------------------------------------ list toolkit *)
 Lemma flat_map_flat_map : forall A B C (f : B -> list C) (g : A -> list B) l,
   flat_map f (flat_map g l) = flat_map (fun x => flat_map f (g x)) l.
@@ -39,15 +30,14 @@ Qed.
 
 (* ------------------------------------------------------------------ DUMP *)
 Lemma dump_sim : forall t a keys, R t a ->
-  (forall i k, i < length (s_pool a) -> In k keys -> query_ok a i k) ->
   dump (t_heap t) (t_pool t) keys = outs (sdump a keys).
 Proof.
-  intros t a keys HR Q. unfold dump, outs, sdump.
+  intros t a keys HR. unfold dump, outs, sdump.
   rewrite flat_map_flat_map.
   rewrite <- (map_nth_seq _ (t_pool t) root) at 1. rewrite flat_map_map.
   rewrite (R_len _ _ HR). apply flat_map_ext_in. intros i Hi. apply in_seq in Hi.
   rewrite flat_map_map. cbn [fst]. apply flat_map_ext_in. intros k Hk.
-  f_equal. apply (get_sim t a i k HR); [rewrite (R_len _ _ HR); lia | apply Q; [lia | exact Hk]].
+  f_equal. apply (get_sim t a i k HR). rewrite (R_len _ _ HR). lia.
 Qed.
 
 (* ------------------------------------------------------------------ killing a token *)
@@ -72,101 +62,93 @@ Qed.
 
 (* ------------------------------------------------------------------ one operation *)
 Theorem step_sim : forall t a o, R t a ->
-  R (fst (step t o)) (fst (sstep a o)) /\ (op_safe a o -> snd (step t o) = outs (snd (sstep a o))).
+  R (fst (step t o)) (fst (sstep a o)) /\ snd (step t o) = outs (snd (sstep a o)).
 Proof.
   intros t a o HR. destruct o as [r k v | r b | r k | r k | r | keys | i j | r | k | k | | sp].
   - (* SetValue *)
     destruct (res_ok t a r HR) as [Hi E]. cbn [step sstep set_value alloc fst snd]. rewrite E.
-    split; [|intros _; reflexivity].
+    split; [|reflexivity].
     apply (R_alloc t a [mk_node (Some k) v (nm (t_pool t) (sres a r))] (length (t_heap t))); [exact HR | lia |].
-    destruct (sctx_rel t a _ HR Hi) as [O [B P]].
-    unfold ctxrel, binds. cbn [app]. rewrite chain_cons_new. cbn [n_next a_binds a_empty_batch].
-    split; [cbn; lia|]. split.
-    + cbn [strip flat_map n_key n_val app]. f_equal. exact B.
-    + intro F. constructor; [discriminate | apply P; exact F].
+    destruct (sctx_rel t a _ HR Hi) as [O B].
+    unfold ctxrel, binds. cbn [app]. rewrite chain_cons_new. cbn [n_next a_binds].
+    split; [cbn; lia|]. cbn [strip flat_map n_key n_val app]. f_equal. exact B.
   - (* SetValues *)
     destruct (res_ok t a r HR) as [Hi E]. cbn [step sstep]. rewrite E.
     destruct (set_values_heap (t_heap t) (nm (t_pool t) (sres a r)) b) as [ex [EH _]].
     destruct (set_values_head (t_heap t) (nm (t_pool t) (sres a r)) b) as [j [EJ [J1 J2]]].
-    destruct (sctx_rel t a _ HR Hi) as [O [B P]].
+    destruct (sctx_rel t a _ HR Hi) as [O B].
     pose proof (set_values_binds (t_heap t) _ b O) as SB.
     destruct (set_values (t_heap t) (nm (t_pool t) (sres a r)) b) as [h' c'] eqn:SV.
-    cbn [fst snd] in *. subst h' c'. split; [|intros _; reflexivity].
+    cbn [fst snd] in *. subst h' c'. split; [|reflexivity].
     apply R_alloc; [exact HR | exact J1 |].
-    unfold ctxrel. cbn [a_binds a_empty_batch]. split; [cbn; lia|]. split.
-    + rewrite SB, B. reflexivity.
-    + intro F. apply orb_false_iff in F. destruct F as [F1 F2].
-      assert (NB : b <> []) by (destruct b; [discriminate | discriminate]).
-      pose proof (set_values_no_phantom (t_heap t) _ b NB O (P F1)) as NP. rewrite SV in NP. exact NP.
+    unfold ctxrel. cbn [a_binds]. split; [cbn; lia|]. rewrite SB, B. reflexivity.
   - (* GetValue *)
     destruct (res_ok t a r HR) as [Hi E]. cbn [step sstep fst snd outs flat_map app]. rewrite E.
-    split; [exact HR|]. intro S. rewrite (get_sim t a _ k HR Hi S). rewrite app_nil_r. reflexivity.
+    split; [exact HR|]. rewrite (get_sim t a _ k HR Hi). rewrite app_nil_r. reflexivity.
   - (* HasKey *)
     destruct (res_ok t a r HR) as [Hi E]. cbn [step sstep fst snd outs flat_map app]. rewrite E.
-    split; [exact HR|]. intro S. unfold has_key. rewrite (get_sim t a _ k HR Hi S). reflexivity.
+    split; [exact HR|]. unfold has_key. rewrite (get_sim t a _ k HR Hi). reflexivity.
   - (* GetSpan *)
     destruct (res_ok t a r HR) as [Hi E]. cbn [step sstep fst snd outs flat_map app]. rewrite E.
-    split; [exact HR|]. intros _. rewrite (get_sim t a _ span_key HR Hi); [reflexivity|]. left. apply span_key_nonempty.
+    split; [exact HR|]. rewrite (get_sim t a _ span_key HR Hi). reflexivity.
   - (* Dump *)
-    cbn [step sstep fst snd]. split; [exact HR|]. intro S. apply dump_sim; assumption.
+    cbn [step sstep fst snd]. split; [exact HR|]. apply dump_sim; assumption.
   - (* operator== *)
-    cbn [step sstep fst snd outs flat_map app]. split; [exact HR|]. intros _.
+    cbn [step sstep fst snd outs flat_map app]. split; [exact HR|].
     destruct (clampi_ok t a i HR) as [Li Ei]. destruct (clampi_ok t a j HR) as [Lj Ej].
     fold (nm (t_pool t) i). fold (nm (t_pool t) j). rewrite Ei, Ej.
     rewrite (nm_eqb t a _ _ HR Li Lj). rewrite Nat.eqb_sym. reflexivity.
   - (* Attach *)
-    destruct (res_ok t a r HR) as [Hi E]. cbn [step sstep fst snd]. rewrite E. split; [|intros _; reflexivity].
+    destruct (res_ok t a r HR) as [Hi E]. cbn [step sstep fst snd]. rewrite E. split; [|reflexivity].
     apply R_push; [exact HR | exact Hi |]. cbn. split; [exact Hi | reflexivity].
   - (* Detach *)
     cbn [step sstep]. pose proof (R_toks _ _ HR k) as T.
     destruct (nth k (t_toks t) TDead) as [|c|c|c] eqn:TK; destruct (nth k (s_toks a) SDead) as [|i|i|i] eqn:SK;
       cbn in T; try contradiction; cbn [tok_ctx].
-    + split; [exact HR | intros _; reflexivity].
+    + split; [exact HR | reflexivity].
     + destruct T as [Li Ec]. fold (nm (t_pool t) i) in Ec. subst c.
       destruct (detach_sim t a i HR Li) as [W [A [B [F L]]]].
       destruct (detach (t_stk t) (nm (t_pool t) i)) as [s' b'] eqn:D.
       destruct (sdetach (s_stack a) i) as [[stk' b2] kd] eqn:SD. cbn [fst snd] in *. subst b'.
-      split; [apply R_set_stack; assumption | intros _; reflexivity].
+      split; [apply R_set_stack; assumption | reflexivity].
     + destruct T as [Li Ec]. fold (nm (t_pool t) i) in Ec. subst c.
       destruct (detach_sim t a i HR Li) as [W [A [B [F L]]]].
       destruct (detach (t_stk t) (nm (t_pool t) i)) as [s' b'] eqn:D.
       destruct (sdetach (s_stack a) i) as [[stk' b2] kd] eqn:SD. cbn [fst snd] in *. subst b'.
-      split; [apply R_set_stack; assumption | intros _; reflexivity].
-    + split; [exact HR | intros _; reflexivity].
+      split; [apply R_set_stack; assumption | reflexivity].
+    + split; [exact HR | reflexivity].
   - (* destroy a token / scope *)
     cbn [step sstep]. pose proof (R_toks _ _ HR k) as T.
     destruct (nth k (t_toks t) TDead) as [|c|c|c] eqn:TK; destruct (nth k (s_toks a) SDead) as [|i|i|i] eqn:SK;
       cbn in T; try contradiction.
-    + split; [exact HR | intros _; reflexivity].
+    + split; [exact HR | reflexivity].
     + destruct T as [Li Ec]. fold (nm (t_pool t) i) in Ec. subst c.
       destruct (detach_sim t a i HR Li) as [W [A [B [F L]]]].
       destruct (sdetach (s_stack a) i) as [[stk' b2] kd] eqn:SD. cbn [fst snd] in *.
-      split; [|intros _; reflexivity].
+      split; [|reflexivity].
       apply (R_kill (with_stk t (fst (detach (t_stk t) (nm (t_pool t) i)))) (set_stack a stk' "x") k).
       apply R_set_stack; assumption.
-    + split; [exact HR | intros _; reflexivity].
+    + split; [exact HR | reflexivity].
     + destruct T as [Li Ec]. fold (nm (t_pool t) i) in Ec. subst c.
       destruct (detach_sim t a i HR Li) as [W [A [B [F L]]]].
       destruct (sdetach (s_stack a) i) as [[stk' b2] kd] eqn:SD. cbn [fst snd] in *.
-      split; [|intros _; reflexivity].
+      split; [|reflexivity].
       apply (R_kill (with_stk t (fst (detach (t_stk t) (nm (t_pool t) i)))) (set_stack a stk' "x") k).
       apply R_set_stack; assumption.
   - (* GetCurrent *)
-    cbn [step sstep fst snd outs flat_map app]. split; [exact HR|]. intros _. rewrite (cur_sim t a HR). reflexivity.
+    cbn [step sstep fst snd outs flat_map app]. split; [exact HR|]. rewrite (cur_sim t a HR). reflexivity.
   - (* Scope *)
     destruct (scur_ok t a HR) as [Hi E]. cbn [step sstep set_value alloc fst snd]. rewrite E.
-    split; [|intros _; reflexivity].
+    split; [|reflexivity].
     set (c := Some (length (t_heap t))).
     set (n := mk_node (Some span_key) (KS, sp) (nm (t_pool t) (scur a))).
-    set (ac := mk_actx ((span_key, (KS, sp)) :: a_binds (sctx a (scur a))) (a_empty_batch (sctx a (scur a)))).
+    set (ac := mk_actx ((span_key, (KS, sp)) :: a_binds (sctx a (scur a)))).
     assert (R1 : R (mk_t ([n] ++ t_heap t) (t_pool t ++ [c]) (t_stk t) (t_toks t))
                    (mk_s (s_pool a ++ [ac]) (s_stack a) (s_toks a) "x")).
     { apply R_alloc; [exact HR | lia |].
-      destruct (sctx_rel t a _ HR Hi) as [O [B P]].
-      unfold ctxrel, binds, ac, n. cbn [app]. rewrite chain_cons_new. cbn [n_next a_binds a_empty_batch].
-      split; [cbn; lia|]. split.
-      - cbn [strip flat_map n_key n_val app]. f_equal. exact B.
-      - intro F. constructor; [discriminate | apply P; exact F]. }
+      destruct (sctx_rel t a _ HR Hi) as [O B].
+      unfold ctxrel, binds, ac, n. cbn [app]. rewrite chain_cons_new. cbn [n_next a_binds].
+      split; [cbn; lia|]. cbn [strip flat_map n_key n_val app]. f_equal. exact B. }
     assert (NC : nm (t_pool t ++ [c]) (length (s_pool a)) = c).
     { unfold nm. rewrite <- (R_len _ _ HR). rewrite app_nth2 by lia. rewrite Nat.sub_diag. reflexivity. }
     pose proof (R_push _ _ (length (s_pool a)) (TScope c) (SScope (length (s_pool a))) "scope_activates_span" R1) as R2.
